@@ -188,8 +188,9 @@ def _eq(a, b):
         if is_expr(y) and y[0] == "bool":
             f = to_formula(x)
             return f if y[1] else mk_not(f)
-        if is_expr(y) and (y[0] == "null" or (y[0] == "int" and _int(y) == 0)):
-            return mk_not(to_formula(x))
+        if is_expr(y) and (y[0] == "null" or (y[0] == "int" and _int(y) == 0) or
+                           (y[0] == "ctor" and len(y) == 3 and is_expr(y[2]) and y[2][0] == "int" and _int(y[2]) == 0)):
+            return mk_not(to_formula(x))   # comparison with 0 / nullptr / T{0}
     ka, kb = key(a), key(b)
     ca = is_expr(a) and a[0] in ("int", "enum")
     cb = is_expr(b) and b[0] in ("int", "enum")
